@@ -103,7 +103,7 @@ func execC13(in []int64) []int64 {
 const c13ServeMagic = -7713
 
 func c13IsRange(fn int64) bool {
-	return fn == 29 || fn == 30 || fn == 34 || fn == 35 || (fn >= 42 && fn <= 45)
+	return fn == 29 || fn == 30 || fn == 34 || fn == 35 || (fn >= 42 && fn <= 45) || fn == 65 || fn == 66
 }
 
 type c13Child struct {
@@ -173,7 +173,9 @@ func c13RangeViaChild(in []int64) ([]int64, bool) {
 	c.cmd.Process.Kill()
 	c.cmd.Wait()
 	c13RangeProc = nil
-	c13Runaways++
+	if !c13FloatExpectedHang(in) { // Range[float64] has arguments on which the loops as written never return
+		c13Runaways++
+	}
 	return []int64{3}, true
 }
 
@@ -450,7 +452,11 @@ func execC13Direct(in []int64) (out []int64) {
 			s, x := r.Ints(), r.Int()
 			res = []int64{int64(gogu.IndexOf(c13Strs(s), fmt.Sprintf("%05d", x+50000)))}
 		default:
-			res = []int64{-1}
+			if c13IsFloatFn(fn) { // the float64 instantiations: c13_float.go
+				res = execC13Float(fn, r)
+			} else {
+				res = []int64{-1}
+			}
 		}
 	})
 	if panicked {
@@ -546,11 +552,18 @@ var c13Names = map[int]string{1: "IndexOf", 2: "LastIndexOf", 3: "FindIndex", 4:
 	28: "Equal", 29: "Range", 30: "RangeRight", 31: "Mean[int8]", 32: "Clamp[int8]row", 33: "InRange[int8]row",
 	34: "Range[float64]/4", 35: "RangeRight[float64]/4", 36: "Sum[float64]/4", 37: "FindMin[float64]/4", 38: "FindMax[float64]/4",
 	39: "Min[string]", 40: "Max[string]", 41: "IndexOf[string]",
-	42: "Range[int8]", 43: "RangeRight[int8]", 44: "Range[uint8]", 45: "RangeRight[uint8]"}
+	42: "Range[int8]", 43: "RangeRight[int8]", 44: "Range[uint8]", 45: "RangeRight[uint8]",
+	50: "Sum[float64]", 51: "SumBy[float64]", 52: "Mean[float64]", 53: "Min[float64]", 54: "Max[float64]", 55: "FindMin[float64]",
+	56: "FindMax[float64]", 57: "FindMinBy[float64]", 58: "FindMaxBy[float64]", 59: "Abs[float64]", 60: "Clamp[float64]",
+	61: "InRange[float64]", 62: "Compare[float64]", 63: "Less[float64]", 64: "Equal[float64]", 65: "Range[float64]",
+	66: "RangeRight[float64]", 67: "FindMinByKey[int,float64]", 68: "FindMaxByKey[int,float64]"}
 
 func describeC13(in []int64) string {
 	if len(in) == 0 {
 		return ""
+	}
+	if c13IsFloatFn(int(in[0])) {
+		return describeC13Float(in)
 	}
 	return fmt.Sprintf("%s%v", c13Names[int(in[0])], in[1:])
 }
@@ -941,9 +954,11 @@ func genC13(g *Gen) {
 			emit("large", true, (&W{}).Int(21).Ints(s))
 		}
 	}
+	// --- float stream: the float64 instantiations against the IEEE-754 model (c13_float.go) ---
+	genC13Float(g, emit)
 }
 
 func init() {
 	register(&Prop{ID: "C13", Exec: execC13, Gen: genC13, Describe: describeC13,
-		Rule: "exhaustive: every slice of length <= 5 (thorough 6) over {-1,0,1,2} x every probe in [-2,3] / predicate family / key family / index in [-len-2,len+2] (incl. Sum[int8], Mean[int8]); Clamp[int8] and InRange[int8] as whole rows: for int8 (lo,hi) - every third value quick, ALL pairs thorough - the results for every int8 n (thorough = every int8 triple), plus an int8 cube at stride 9/4 and every boundary probe n in {lo-1..lo+1,hi-1..hi+1} (stride 5 quick, all thorough) through the int instantiation, and all int8 for Abs / Abs[int8]; (start,step,end) in [-10,10]^3 (thorough [-14,14]^3) and every 1- and 2-argument call in that range, 0 and >3 arguments, for Range; lists of <= 3 (4) maps for ByKey. extreme: indices / probes / bounds / steps / elements in {MaxInt, MaxInt-1, MinInt, MinInt+1, +-2^31, +-2^32, +-2^62, -1, 0, 1} for Nth (and the valid window shifted by +-2^32 and to both ends of int64), Range/RangeRight (every single, pair and triple whose result has <= 5000 terms - the counter may pass the limits of int64: the repaired loops stop there - or that is rejected; progressions ending within 3 of MaxInt / MinInt), Clamp, InRange, Abs, Compare/Less/Equal, and slices of length <= 3 over {MaxInt, MinInt, +-2^62, +-1} for Sum/SumBy/Mean/Min/Max/FindMin/FindMax(+By) and (length <= 2) the searches with extreme probes. large: slices of 100..5000 elements for every slice function, Nth at both ends, ranges of 100..5000 terms (also ending at MaxInt / MinInt), ByKey over 100..500 maps, Sum/Mean[int8] at the lengths where int8(len) wraps. random: seeded slices up to length 24 over [-50,50]. instances: Range/RangeRight[float64] on every (start,step,end) in [-8,8]^3 quarters, Range/RangeRight[int8] and [uint8] on 19 / 14 start and end values at and around the limits of the type x 18 / 10 steps (incl. -128) and seeded random triples over the whole type, Sum/FindMin/FindMax[float64] on quarters and Min/Max/IndexOf[string] on numerals, seeded random slices up to length 12. non-trivial = slice longer than 1 element, or any index/range probe, or a Clamp with lo <= hi; distinct = distinct wire input"})
+		Rule: "exhaustive: every slice of length <= 5 (thorough 6) over {-1,0,1,2} x every probe in [-2,3] / predicate family / key family / index in [-len-2,len+2] (incl. Sum[int8], Mean[int8]); Clamp[int8] and InRange[int8] as whole rows: for int8 (lo,hi) - every third value quick, ALL pairs thorough - the results for every int8 n (thorough = every int8 triple), plus an int8 cube at stride 9/4 and every boundary probe n in {lo-1..lo+1,hi-1..hi+1} (stride 5 quick, all thorough) through the int instantiation, and all int8 for Abs / Abs[int8]; (start,step,end) in [-10,10]^3 (thorough [-14,14]^3) and every 1- and 2-argument call in that range, 0 and >3 arguments, for Range; lists of <= 3 (4) maps for ByKey. extreme: indices / probes / bounds / steps / elements in {MaxInt, MaxInt-1, MinInt, MinInt+1, +-2^31, +-2^32, +-2^62, -1, 0, 1} for Nth (and the valid window shifted by +-2^32 and to both ends of int64), Range/RangeRight (every single, pair and triple whose result has <= 5000 terms - the counter may pass the limits of int64: the repaired loops stop there - or that is rejected; progressions ending within 3 of MaxInt / MinInt), Clamp, InRange, Abs, Compare/Less/Equal, and slices of length <= 3 over {MaxInt, MinInt, +-2^62, +-1} for Sum/SumBy/Mean/Min/Max/FindMin/FindMax(+By) and (length <= 2) the searches with extreme probes. large: slices of 100..5000 elements for every slice function, Nth at both ends, ranges of 100..5000 terms (also ending at MaxInt / MinInt), ByKey over 100..500 maps, Sum/Mean[int8] at the lengths where int8(len) wraps. random: seeded slices up to length 24 over [-50,50]. instances: Range/RangeRight[float64] on every (start,step,end) in [-8,8]^3 quarters, Range/RangeRight[int8] and [uint8] on 19 / 14 start and end values at and around the limits of the type x 18 / 10 steps (incl. -128) and seeded random triples over the whole type, Sum/FindMin/FindMax[float64] on quarters and Min/Max/IndexOf[string] on numerals, seeded random slices up to length 12. float: Sum/Mean/Min/Max/FindMin/FindMax[float64] on every slice of length <= 3 over 20 special values {-0, +0, +-1, 0.1, 0.2, 0.3, 0.5, 1.5, +-1e308, +-5e-324, MaxFloat64, 2^-1022, +-Inf, NaN, 2^53, 2^53+2} (thorough also length 4 over the first 15), SumBy/FindMinBy/FindMaxBy x 4 key functions on length <= 2 (length 3 over the first 9, thorough 14), Abs on every value and its negation, Compare/Less/Equal on every pair, Clamp/InRange on every triple, ByKey[int,float64] on lists of <= 3 maps with NaN / -0 / +Inf values, Range/RangeRight[float64] on every single, pair and triple over 24 values (incl. NaN, +-Inf, 0.005, 2.675, 2^53) that is rejected or ends within 300 (3000) iterations, two of the calls that never return, seeded random slices (raw bit patterns / ordinary decimals / mixed; length <= 12 and 100..500) and seeded random decimal ranges; results compared bit for bit (NaN canonicalised). non-trivial = slice longer than 1 element, or any index/range probe, or a Clamp with lo <= hi; distinct = distinct wire input"})
 }
